@@ -778,6 +778,8 @@ class Interp:
         r = models.contains(self, container, item)
         if r is not NotImplemented:
             return r
+        if isinstance(container, dict) and isinstance(item, str):
+            return item in container      # keyword arguments of a scripted call
         if isinstance(container, (tuple, frozenset)):
             acc = False
             for x in container:
@@ -942,6 +944,10 @@ class Interp:
             if self.ctx.branch(z3.Not(z3.Select(base.dom, k)), "key missing"):
                 raise PyRaise("KeyError")
             return base.get(k)
+        if isinstance(base, dict) and isinstance(idx, str):
+            if idx not in base:
+                raise PyRaise("KeyError")
+            return base[idx]              # keyword arguments of a scripted call
         if isinstance(base, VRef):
             h = self.ctx.deref(base)
             if isinstance(h, HObj) and h.cls.startswith("ext:") and "__getitem__" in (h.fields.get("__methods__") or {}):
